@@ -164,8 +164,12 @@ func init() {
 		for i := 0; i < c.N(12, 60); i++ {
 			var start []aop
 			switch i % 4 {
-			case 0: // 258..300 maximal attributes: far beyond 65535 bytes, refused
-				for j, n := 0, 258+r.Intn(43); j < n; j++ {
+			case 0: // 258..300 maximal attributes: far beyond 65535 bytes, refused (258..273 wrap a 16-bit size below 4096)
+				n := 258 + (i/4*5)%16
+				if i%8 == 4 {
+					n = 274 + r.Intn(27)
+				}
+				for j := 0; j < n; j++ {
 					start = append(start, aop{0, 1 + r.Intn(3), r.Bytes(253)})
 				}
 			case 1: // thousands of attributes that are not encoded at all, around a few that are
